@@ -22,13 +22,16 @@ Record sobs := {
   so_dep : depl; so_sets : list dset; so_store : store; so_rv : N; so_uid : N
 }.
 
-(** The ObjectSlices of the scenario (never written by the deployment controller) and the variant of the archive
-    reconciler's ObjectSet getter the implementation follows (decided by a witness scenario). *)
+(** The ObjectSlices of the scenario (never written by the deployment controller). *)
 Definition stable := list (N * list pobj).
 Definition table_slices (t : stable) (n : N) : option (list pobj) :=
   match find (fun e => fst e =? n) t with Some e => Some (snd e) | None => None end.
 
-Record dcase := { dc_table : htable; dc_slices : stable; dc_sliceaware : bool; dc_rev0ok : bool; dc_init : dworld; dc_steps : list step; dc_obs : list sobs }.
+(** [dc_race]: an optional last step that is not modelled (judged by the monitors only): a pass of the ObjectSet
+    controller for the named ObjectSet during which another ObjectSet's pass runs between a read and the following
+    write of the first (the model's passes are atomic). *)
+Record dcase := { dc_table : htable; dc_slices : stable; dc_init : dworld; dc_steps : list step; dc_obs : list sobs;
+                  dc_race : option (N * sobs) }.
 
 Definition wres_eqb (a b : wres) : bool :=
   match a, b with WOk, WOk | WErr, WErr | WLost, WLost | WConflict, WConflict | WNotFound, WNotFound => true | _, _ => false end.
@@ -58,12 +61,12 @@ Definition dset_eqb (a b : dset) : bool :=
   Bool.eqb (ds_sel a) (ds_sel b) && (ds_ctrl a =? ds_ctrl b) && Bool.eqb (ds_ctrlset a) (ds_ctrlset b).
 
 (** One step of the model with its observable outcome. *)
-Definition model_step (t : htable) (sl : stable) (sa r0 : bool) (w : dworld) (s : step) : dworld * ores * list dev :=
+Definition model_step (t : htable) (sl : stable) (w : dworld) (s : step) : dworld * ores * list dev :=
   match s with
   | SDep stale fault =>
-      let '(w', evs, r) := dep_pass (table_hash t) fault (table_slices sl) sa r0 stale w in
+      let '(w', evs, r) := dep_pass (table_hash t) fault (table_slices sl) stale w in
       (w', match r with DpDone => OrDone | DpError => OrError end, evs)
-  | _ => (do_step (table_hash t) (table_slices sl) sa r0 w s, OrNone, [])
+  | _ => (do_step (table_hash t) (table_slices sl) w s, OrNone, [])
   end.
 
 Definition ores_eqb (a b : ores) : bool :=
@@ -78,26 +81,26 @@ Definition step_agree_parts (s : step) (w' : dworld) (r : ores) (evs : list dev)
     store_eqb (w_store (dw_w w')) (so_store o);
     (w_rv (dw_w w') =? so_rv o) && (w_uid (dw_w w') =? so_uid o) ].
 
-Fixpoint run_agree (t : htable) (sl : stable) (sa r0 : bool) (w : dworld) (steps : list step) (obs : list sobs) : list (list bool) :=
+Fixpoint run_agree (t : htable) (sl : stable) (w : dworld) (steps : list step) (obs : list sobs) : list (list bool) :=
   match steps, obs with
   | s :: steps', o :: obs' =>
-      let '(w', r, evs) := model_step t sl sa r0 w s in
-      step_agree_parts s w' r evs o :: run_agree t sl sa r0 w' steps' obs'
+      let '(w', r, evs) := model_step t sl w s in
+      step_agree_parts s w' r evs o :: run_agree t sl w' steps' obs'
   | [], [] => []
   | _, _ => [[false]]
   end.
 
 Definition agree_parts (c : dcase) : list (list bool) :=
-  run_agree (dc_table c) (dc_slices c) (dc_sliceaware c) (dc_rev0ok c) (dc_init c) (dc_steps c) (dc_obs c).
+  run_agree (dc_table c) (dc_slices c) (dc_init c) (dc_steps c) (dc_obs c).
 Definition agree (c : dcase) : bool := forallb (forallb (fun b => b)) (agree_parts c).
 
 (** The model's trace: the world before each step, the step, the model's events. Used by the monitors' soundness
     statements. *)
-Fixpoint model_obs (t : htable) (sl : stable) (sa r0 : bool) (w : dworld) (steps : list step) : list sobs :=
+Fixpoint model_obs (t : htable) (sl : stable) (w : dworld) (steps : list step) : list sobs :=
   match steps with
   | [] => []
   | s :: steps' =>
-      let '(w', r, evs) := model_step t sl sa r0 w s in
+      let '(w', r, evs) := model_step t sl w s in
       {| so_res := r; so_events := evs; so_dep := dw_dep w'; so_sets := isort name_lt (dw_sets w');
-         so_store := w_store (dw_w w'); so_rv := w_rv (dw_w w'); so_uid := w_uid (dw_w w') |} :: model_obs t sl sa r0 w' steps'
+         so_store := w_store (dw_w w'); so_rv := w_rv (dw_w w'); so_uid := w_uid (dw_w w') |} :: model_obs t sl w' steps'
   end.
